@@ -664,5 +664,55 @@ theorem specMove_cases (now : Nat) (s : AState Name C) (h : Handle) (curx : Name
                 exact specAddAt_other hq k hk2
               · simp [hd2]
 
+/-! ### the metadata rules of `update_metadata`, key by key -/
+
+theorem updateMetadata_user_some (old : Option Meta) (nm : Meta) (now : Nat) :
+    (updateMetadata old (some nm) now).user = nm.user := by
+  simp [updateMetadata]
+
+theorem updateMetadata_user_none (old : Option Meta) (now : Nat) :
+    (updateMetadata old none now).user = (old.getD Meta.empty).user := by
+  simp [updateMetadata]
+
+theorem sys_eq_lookup (m : Meta) (k : String) : m.sys k = lookup k (m.tahoe.getD []) := by
+  unfold Meta.sys
+  cases m.tahoe <;> simp [lookup]
+
+/-- the 'tahoe' sub-dict after `update_metadata`: that of the *old* metadata (whatever the caller supplied),
+    with `linkcrtime` filled in if it was missing and `linkmotime` set to now -/
+theorem updateMetadata_tahoe (old new : Option Meta) (now : Nat) :
+    ∃ x, (updateMetadata old new now).tahoe =
+      some (put "linkmotime" (Val.time now)
+        (if (lookup "linkcrtime" ((old.getD Meta.empty).tahoe.getD [])).isSome then (old.getD Meta.empty).tahoe.getD []
+         else put "linkcrtime" x ((old.getD Meta.empty).tahoe.getD []))) ∧
+      x = ((match lookup "ctime" (old.getD Meta.empty).user with
+            | some v => if v = Val.null then none else some v
+            | none => none).getD (Val.time now)) := by
+  cases new <;> exact ⟨_, rfl, rfl⟩
+
+theorem updateMetadata_sys_other (old new : Option Meta) (now : Nat) (k : String)
+    (h1 : k ≠ "linkcrtime") (h2 : k ≠ "linkmotime") :
+    (updateMetadata old new now).sys k = (old.getD Meta.empty).sys k := by
+  obtain ⟨x, ht, _⟩ := updateMetadata_tahoe old new now
+  rw [sys_eq_lookup, sys_eq_lookup, ht]
+  simp only [Option.getD_some, lookup_put, h2, if_false]
+  split
+  · rfl
+  · simp [lookup_put, h1]
+
+theorem updateMetadata_crtime_fallback (old : Meta) (new : Option Meta) (now : Nat)
+    (hno : old.sys "linkcrtime" = none) :
+    (updateMetadata (some old) new now).sys "linkcrtime" =
+      some ((match lookup "ctime" old.user with
+            | some v => if v = Val.null then none else some v
+            | none => none).getD (Val.time now)) := by
+  have hne : ¬ ("linkcrtime" = "linkmotime") := by decide
+  obtain ⟨x, ht, hx⟩ := updateMetadata_tahoe (some old) new now
+  rw [sys_eq_lookup] at hno
+  rw [sys_eq_lookup, ht]
+  simp only [Option.getD_some] at hno hx ⊢
+  simp only [lookup_put, hne, if_false, hno, Option.isSome_none, Bool.false_eq_true, if_true]
+  rw [hx]
+
 end
 end Tahoe.Dir.Edit
